@@ -348,13 +348,13 @@ Proof.
            destruct (slice_some i (i + ce - cs) ltac:(lia) ltac:(lia) Ee) as [l2 Hl2]. rewrite Hl2.
            destruct (list_eqb l1 l2) eqn:Eq.
            ++ eapply ok_pre.
-              { apply (reaches_step _ _ _ _ (mkSt (i + ce - cs) (S (length pre)) c tb) 0).
+              { apply (reaches_step _ _ _ _ (mkSt (i + ce - cs) (S (length pre)) c tb) (ce - cs)).
                 unfold Machine.step. cbn [m_si m_pi m_caps m_tb]. rewrite Hnth, (idx_ok_false n Wi), Hcn.
                 replace (cs <=? ce) with true by (symmetry; apply Z.leb_le; lia).
                 replace (i + ce - cs <=? len) with true by (symmetry; apply Z.leb_le; lia).
                 cbn [andb]. rewrite Hl1, Hl2, Eq. reflexivity. }
               apply ok_shift_plain; [exact NC|]. apply IH; auto. lia.
-           ++ exists c. split; [|assumption]. apply (reaches_step _ _ _ _ _ 0).
+           ++ exists c. split; [|assumption]. apply (reaches_step _ _ _ _ _ (ce - cs)).
               unfold Machine.step. cbn [m_si m_pi m_caps m_tb]. rewrite Hnth, (idx_ok_false n Wi), Hcn.
               replace (cs <=? ce) with true by (symmetry; apply Z.leb_le; lia).
               replace (i + ce - cs <=? len) with true by (symmetry; apply Z.leb_le; lia).
